@@ -173,7 +173,13 @@ func (n *Net) Dial(addr string) (*NetConn, error) {
 
 // ------------------------------------------------------------------ conns
 
+type pendSeg struct {
+	rel  time.Duration
+	data []byte
+}
+
 type half struct {
+	pend     []pendSeg
 	buf      []byte
 	inflight int // bytes written but not yet readable (latency)
 	lastRel  time.Duration
@@ -339,18 +345,26 @@ func (c *NetConn) deliver(data []byte) {
 		rel = h.lastRel
 	}
 	h.lastRel = rel
-	if rel <= now {
+	if rel <= now && len(h.pend) == 0 {
 		h.buf = append(h.buf, data...)
 		c.cv.Broadcast()
 		return
 	}
 	c.n.w.Fault("latency")
 	h.inflight += len(data)
+	h.pend = append(h.pend, pendSeg{rel, data})
 	simrt.AfterFunc("H:simnet-deliver", rel-now, func() {
 		c.mu.Lock()
-		h.inflight -= len(data)
-		if !*c.reset {
-			h.buf = append(h.buf, data...)
+		// strictly FIFO: whichever timer task runs first delivers every
+		// segment that is due, oldest first
+		t := c.n.w.Now()
+		for len(h.pend) > 0 && h.pend[0].rel <= t {
+			seg := h.pend[0]
+			h.pend = h.pend[1:]
+			h.inflight -= len(seg.data)
+			if !*c.reset {
+				h.buf = append(h.buf, seg.data...)
+			}
 		}
 		c.cv.Broadcast()
 		c.mu.Unlock()
